@@ -746,11 +746,35 @@ def _ctx_formula(ex, c, args, kwargs, node):
     return VCtx(child["formula"](c.t))
 
 
+# list-valued subtrees: `ctx.condition()` is the (optional) rest of a condition list;
+# visit(that child) denotes CondsOf(child), the conditionals of the subtree in tree order
+child["condition"] = z3.Function("child_condition", Ctx, Ctx)
+has_condition = z3.Function("has_condition", Ctx, L.Bool)
+CondsOf = z3.Function("CondsOf", Ctx, L.LCnd.sort)
+
+
+@meth("Ctx", "condition", tb="TB-antlr")
+def _ctx_condition(ex, c, args, kwargs, node):
+    k = VCtx(child["condition"](c.t))
+    k.kind = "condition"
+    return VOptional(z3.Not(has_condition(c.t)), k, TCtx)
+
+
+@meth("Ctx", "getText", tb="TB-antlr")
+def _ctx_gettext(ex, c, args, kwargs, node):
+    return VStr(tok_text(c.t))
+
+
 @meth("myVisitor", "visit", tb="TB-antlr")
 def _visit(ex, v, args, kwargs, node):
     (c,) = args
+    if isinstance(c, VOptional) and isinstance(c.val, VCtx):
+        ex.oblige("noraise.visit_none", node, z3.Not(c.isnone))  # visit(None) raises AttributeError
+        c = c.val
     if not isinstance(c, VCtx):
         raise Unsupported("visit of a non-context")
+    if getattr(c, "kind", None) == "condition":
+        return VList(CondsOf(c.t), TCnd)
     return VForm(sem(c.t))
 
 
